@@ -391,7 +391,7 @@ func (ma *mergeAnalysis) ruleR14n(c *Ctx) {
 func fieldTypeOf(m *Module, typ, field string) types.Type {
 	st := m.structOf(pkgAPI, typ)
 	for i := 0; i < st.NumFields(); i++ {
-		if st.Field(i).Name() == field {
+		if fname(st.Field(i)) == field {
 			return st.Field(i).Type()
 		}
 	}
